@@ -119,29 +119,93 @@ theorem custom_props_roundtrip (pre post : List (V × V)) (ps : List (V × V))
   simp only [customLoad, customStack_append, customStack_none pre h1, customStack_none post h2, List.nil_append,
     List.append_nil, customStack_groups, pairUp_flat]
 
-/-- they are written once, right behind $LASTSAVEDBY, when that variable is exported once -/
-theorem custom_props_written (a b : List V) (ps : List (V × V))
+private theorem customLoop_none (ps : List (V × V)) (l : List V) (hl : V.str sLastSavedBy ∉ l) :
+    l.flatMap (fun n => if n == V.str sLastSavedBy then customGroups ps else []) = [] := by
+  simp only [List.flatMap_eq_nil_iff]
+  intro n hn
+  have : n ≠ V.str sLastSavedBy := fun e => hl (e ▸ hn)
+  simp [this]
+
+/-- they are written once, right behind $LASTSAVEDBY, when that variable is exported once (any target version) -/
+theorem custom_props_written (r2004 : Bool) (a b : List V) (ps : List (V × V))
     (ha : V.str sLastSavedBy ∉ a) (hb : V.str sLastSavedBy ∉ b) :
-    customWritten (a ++ [.str sLastSavedBy] ++ b) ps = customGroups ps := by
-  have hz : ∀ l : List V, V.str sLastSavedBy ∉ l → customWritten l ps = [] := by
-    intro l hl
-    simp only [customWritten, List.flatMap_eq_nil_iff]
-    intro n hn
-    have : n ≠ V.str sLastSavedBy := fun e => hl (e ▸ hn)
-    simp [this]
-  simp only [customWritten, List.flatMap_append] at hz ⊢
-  rw [hz a ha, hz b hb]
+    customWritten r2004 (a ++ [.str sLastSavedBy] ++ b) ps = customGroups ps := by
+  have hc : (a ++ [V.str sLastSavedBy] ++ b).contains (V.str sLastSavedBy) = true := by simp
+  simp only [customWritten, hc, if_true, List.append_nil, List.flatMap_append, customLoop_none ps a ha,
+    customLoop_none ps b hb]
   simp
 
-/-- COUNTEREXAMPLE FAMILY (data loss, replayed on the real code by the oracle: finding F23): when $LASTSAVEDBY is not among
-    the exported header variables (every DXF R2000 file; any R2004+ file of an application that does not write the variable)
-    no custom property is written at all -/
-theorem custom_props_lost_without_lastsavedby (exported : List V) (ps : List (V × V))
-    (h : V.str sLastSavedBy ∉ exported) : customWritten exported ps = [] := by
-  simp only [customWritten, List.flatMap_eq_nil_iff]
-  intro n hn
-  have : n ≠ V.str sLastSavedBy := fun e => h (e ▸ hn)
-  simp [this]
+/-- without $LASTSAVEDBY among the exported variables (an application that does not write it; every R2000 file) the statement
+    behind the loop writes them for a target version >= R2004 (fix 4b8cbec85) and nothing for R2000 (permitted version loss:
+    the two variables are R2004 header variables) -/
+theorem custom_props_written_without_lastsavedby (r2004 : Bool) (exported : List V) (ps : List (V × V))
+    (h : V.str sLastSavedBy ∉ exported) :
+    customWritten r2004 exported ps = if r2004 then customGroups ps else [] := by
+  have hc : exported.contains (V.str sLastSavedBy) = false := by
+    rw [Bool.eq_false_iff]; intro hm; exact h (List.contains_iff_mem.mp hm)
+  simp only [customWritten, hc, customLoop_none ps exported h, List.nil_append, customFallback]
+  simp
+
+/-- … hence custom properties are lost exactly when the target version is older than R2004 -/
+theorem custom_props_lost_iff (r2004 : Bool) (exported : List V) (ps : List (V × V))
+    (h : V.str sLastSavedBy ∉ exported) (hp : ps ≠ []) :
+    customWritten r2004 exported ps = [] ↔ r2004 = false := by
+  rw [custom_props_written_without_lastsavedby r2004 exported ps h]
+  cases r2004 with
+  | false => simp
+  | true =>
+    cases ps with
+    | nil => exact absurd rfl hp
+    | cons p r => simp [customGroups]
+
+/-- `TableHead.export_dxf` (fix ba5d636de) writes the base-class structures of a (0, TABLE) record in the order of
+    `export_base_class` and the XDATA at the end: statement order extracted from the current source -/
+theorem table_head_writes_all_structures :
+    tableHeadOrder.filter (fun p => p == .handle || p == .appdata || p == .xdict || p == .reactors || p == .owner)
+        = [.handle, .appdata, .xdict, .reactors, .owner]
+      ∧ baseOrder = [.handle, .appdata, .xdict, .reactors, .owner]
+      ∧ tableHeadOrder.getLast? = some .xdata := by
+  decide
+
+/-- XRECORD payload (fix d4f17a436): every payload without an embedded-object or XDATA marker - any group codes, group code 100
+    included - is kept completely, together with the cloning flag (an integer 0..5; other values are replaced by the default 1
+    by the attribute validator) -/
+theorem xrecord_payload_kept (m f : Tag) (payload : List Tag) (hm : m.code = 100) (hf : f.code = 280)
+    (hp : ∀ t ∈ payload, isEO t = false ∧ t.code ≠ 1001) :
+    xrecordPayload xrecordKeepsLaterSubclasses
+        (collectGroups (fun t => t.code == 100) isEndOfClass (m :: f :: payload)).1 = some (fixCloning f.val, payload) := by
+  have hfl := collectGroups_flatten (fun t => t.code == 100) isEndOfClass (m :: f :: payload)
+  have hrem : (collectGroups (fun t => t.code == 100) isEndOfClass (m :: f :: payload)).2 = [] := by
+    rcases collectGroups_rem (fun t => t.code == 100) isEndOfClass (m :: f :: payload) with e | ⟨x, tl, e1, e2, e3⟩
+    · exact e
+    · exfalso
+      simp only [beq_eq_false_iff_ne, ne_eq] at e2
+      rcases e3 with e3 | e3
+      · rw [e3] at e1; cases e1; exact e2 hm
+      · have hx : x ∈ m :: f :: payload := by
+          rw [← hfl, e1]; simp
+        simp only [List.mem_cons] at hx
+        simp only [isEndOfClass, Bool.or_eq_true, beq_iff_eq] at e3
+        rcases hx with rfl | rfl | hx
+        · exact e2 hm
+        · rcases e3 with (e3 | e3) | e3
+          · omega
+          · simp [isEO, hf] at e3
+          · omega
+        · have := hp x hx
+          rcases e3 with (e3 | e3) | e3
+          · exact e2 e3
+          · rw [this.1] at e3; cases e3
+          · exact this.2 e3
+  rw [hrem, List.append_nil] at hfl
+  -- the first subclass starts with the marker and the cloning flag
+  have hne : isEndOfClass f = false := by
+    simp [isEndOfClass, isEO, hf]
+  rw [collectGroups] at hfl ⊢
+  simp only [hm, beq_self_eq_true, if_true, List.takeWhile_cons, List.dropWhile_cons, hne, Bool.not_false] at hfl ⊢
+  simp only [xrecordPayload, hf, beq_self_eq_true, if_true, xrecordKeepsLaterSubclasses, List.drop_succ_cons, List.drop_zero]
+  simp only [List.flatten_cons, List.cons_append, List.cons.injEq, true_and] at hfl
+  rw [hfl]
 
 private theorem register_append (acc a b : List (V × V)) : register acc (a ++ b) = register (register acc a) b := by
   induction a generalizing acc with
